@@ -54,6 +54,18 @@ var c08Graphs = []c08Graph{
 	}, func(root string) api.BuildOptions {
 		return api.BuildOptions{EntryPoints: []string{"ok.js", "bad1.js", "bad2.js", "nonexistent1.js", "nonexistent2.js", "bad3.css"}, Bundle: true, Format: api.FormatESModule, Outdir: "out", Metafile: true}
 	}},
+	{"G6-deep-tree-ties", map[string]string{
+		// files at depth 2 reached through different parents get their internal indices in arrival order; every
+		// tie (equal use counts of mangled properties, equal-frequency identifiers, same-named top-level symbols)
+		// must be broken by something stable
+		"entry.js": "import {X} from './x.js'; import {Y} from './y.js'; console.log(X, Y)",
+		"x.js":     "import {P} from './p.js'; const name = 'x', tie1 = 1; export const X = [P, name, tie1]",
+		"y.js":     "import {Q} from './q.js'; const name = 'y', tie2 = 2; export const Y = [Q, name, tie2]",
+		"p.js":     "const name = 'p', tie3 = 3; export const P = {alpha_: 1, name, tie3}",
+		"q.js":     "const name = 'q', tie4 = 4; export const Q = {beta_: 2, name, tie4}",
+	}, func(root string) api.BuildOptions {
+		return api.BuildOptions{EntryPoints: []string{"entry.js"}, Bundle: true, Format: api.FormatESModule, Outdir: "out", Metafile: true, MangleProps: "_$", MangleCache: map[string]interface{}{}, MinifyIdentifiers: true}
+	}},
 	{"G5-inject-and-glob", map[string]string{
 		"entry.js":    "const n = 'a'; console.log(require('./dir/' + n + '.js'), injected1, injected2); import('./dir/' + n + '.js')",
 		"dir/a.js":    "module.exports = 'A'",
@@ -164,9 +176,12 @@ func runC08(c *Check) {
 					return
 				}
 				distinctObs[g.name+x.Obs] = true
-				if first == "" {
-					first = x.Obs
+				if first == "" || gStates%64 == 0 {
+					if first == "" {
+						first = x.Obs
+					}
 					// validate: replay the same schedule once more, it must give the same observation
+					// (the first execution and every 64th one of each graph in each worker process)
 					y := ex.runOne(x.Choices)
 					validated++
 					if y.Obs != x.Obs || len(y.Points) != len(x.Points) {
